@@ -103,7 +103,9 @@ func resolve(sel Selector, subject ipld.Node, at []string) (ipld.Node, error) {
 				if seg.Optional() {
 					// build an empty list
 					n, _ := qp.BuildList(basicnode.Prototype.Any, 0, func(_ datamodel.ListAssembler) {})
-					return n, nil
+					// keep resolving the remaining segments on that list
+					cur = n
+					continue
 				}
 				return nil, newResolutionError(fmt.Sprintf("can not iterate over kind: %s", kindString(cur)), at)
 
@@ -130,7 +132,9 @@ func resolve(sel Selector, subject ipld.Node, at []string) (ipld.Node, error) {
 				if err != nil {
 					panic("should never happen")
 				}
-				return nd, nil
+				// keep resolving the remaining segments on the collected values
+				cur = nd
+				continue
 
 			default:
 				return nil, newResolutionError(fmt.Sprintf("can not iterate over kind: %s", kindString(cur)), at)
